@@ -90,6 +90,8 @@ pub enum Damage {
     ExtendZeros { n: usize },
     ExtendRandom { n: usize, seed: u64 },
     ExtendOwnTail { n: usize },
+    /// append exactly these bytes (text formats: lines of valid but non-ASCII UTF-8)
+    ExtendBytes { bytes: Vec<u8> },
 }
 
 impl Damage {
@@ -118,6 +120,7 @@ impl Damage {
                 let tail = b[start..].to_vec();
                 b.extend_from_slice(&tail);
             }
+            Damage::ExtendBytes { bytes } => b.extend_from_slice(bytes),
         }
     }
 
@@ -126,7 +129,7 @@ impl Damage {
             Damage::Flip { .. } => "bit-flip",
             Damage::Set { .. } => "byte-overwrite",
             Damage::Truncate { .. } => "truncate",
-            Damage::ExtendZeros { .. } | Damage::ExtendRandom { .. } | Damage::ExtendOwnTail { .. } => "extend",
+            Damage::ExtendZeros { .. } | Damage::ExtendRandom { .. } | Damage::ExtendOwnTail { .. } | Damage::ExtendBytes { .. } => "extend",
         }
     }
 
@@ -1119,6 +1122,23 @@ fn examine(
             if kind == "manifest" {
                 if let Some(pos) = pristine_bytes[..n.saturating_sub(9).max(0)].windows(9).rposition(|w| w == b"--------\n") {
                     cases.push(vec![Damage::ExtendOwnTail { n: n - (pos + 9) }]);
+                }
+            }
+            if kind == "manifest" {
+                // A text format read line by line and sliced at fixed byte offsets: adjacent
+                // overwrites that form one valid multi-byte UTF-8 character at every offset, and
+                // appended lines of valid non-ASCII text with the character at various columns.
+                for off in 0..n.saturating_sub(2) {
+                    cases.push(vec![Damage::Set { off, val: 0xc3 }, Damage::Set { off: off + 1, val: 0xa9 }]);
+                    cases.push(vec![Damage::Set { off, val: 0xe2 }, Damage::Set { off: off + 1, val: 0x82 }, Damage::Set { off: off + 2, val: 0xac }]);
+                }
+                for col in 0..12usize {
+                    let mut line = vec![b'0'; col];
+                    line.extend_from_slice("\u{e9}+xyz\n".as_bytes());
+                    cases.push(vec![Damage::ExtendBytes { bytes: line }]);
+                    let mut line = vec![b'a'; col];
+                    line.extend_from_slice("\u{20ac}\u{20ac}\u{20ac}\u{20ac}\n".as_bytes());
+                    cases.push(vec![Damage::ExtendBytes { bytes: line }]);
                 }
             }
             if kind != "store" {
